@@ -1018,8 +1018,8 @@ class Converter:
         record = Record(
             prefix=prefix,
             uri_prefix=uri_prefix,
-            prefix_synonyms=sorted(prefix_synonyms or []),
-            uri_prefix_synonyms=sorted(uri_prefix_synonyms or []),
+            prefix_synonyms=[] if prefix_synonyms is None else sorted(prefix_synonyms),
+            uri_prefix_synonyms=[] if uri_prefix_synonyms is None else sorted(uri_prefix_synonyms),
         )
         self.add_record(record, case_sensitive=case_sensitive, merge=merge)
 
